@@ -1,3 +1,4 @@
 //! Reference models, written from the RFCs / the property statements, independent of attohttpc.
 pub mod chunked;
 pub mod deflate_enc;
+pub mod request;
